@@ -235,33 +235,26 @@ func ringSimilar(a, b []Point, e float64) bool {
 	if len(a) != len(b) {
 		return false
 	}
-	ia := minPt(a)
-	ib := minPt(b)
-	for i := 0; i < len(a); i++ {
-		if !pointSimilar(a[ia], b[ib], e) {
-			return false
+	n := len(a)
+	if n > 1 && pointSimilar(a[0], a[n-1], e) && pointSimilar(b[0], b[n-1], e) {
+		n-- // Skip the last point that matches the first point.
+	}
+	if n == 0 {
+		return true
+	}
+	// The rings are similar if they match under some rotation of the
+	// starting point.
+	for k := 0; k < n; k++ {
+		match := true
+		for i := 0; i < n; i++ {
+			if !pointSimilar(a[i], b[(i+k)%n], e) {
+				match = false
+				break
+			}
 		}
-		ia = nextPt(ia, len(a))
-		ib = nextPt(ib, len(b))
-	}
-	return true
-}
-
-// ring iterator function
-func nextPt(i, l int) int {
-	if i == l-2 { // Skip the last point that matches the first point.
-		return 0
-	}
-	return i + 1
-}
-
-// find bottom-most of leftmost points, to have fixed anchor
-func minPt(c []Point) int {
-	min := 0
-	for j, p := range c {
-		if p.X < c[min].X || p.X == c[min].X && p.Y < c[min].Y {
-			min = j
+		if match {
+			return true
 		}
 	}
-	return min
+	return false
 }
